@@ -481,3 +481,37 @@ func pixAccessesOf(fn *ssa.Function) []pixAccess {
 	}
 	return out
 }
+
+// checkDetectorParamsImmutable: the detector's parameters named by roles are set by the constructor only - a later store
+// (Reset zeroing the edge width, a method re-deriving a limit) changes what every following frame is compared with.
+func checkDetectorParamsImmutable(w *World, r *Report, d *detInfo, rule string, roles ...string) {
+	for _, role := range roles {
+		fi, ok := d.Role[role]
+		if !ok {
+			r.Unknown(rule, "detector parameter "+role, "-", "role not resolved")
+			continue
+		}
+		var bad ssa.Instruction
+		for fn := range w.AllFuncs {
+			if fn == d.Ctor || !w.IsRepoFunc(fn) {
+				continue
+			}
+			for _, b := range fn.Blocks {
+				for _, in := range b.Instrs {
+					if st, ok := in.(*ssa.Store); ok {
+						if fa, ok := st.Addr.(*ssa.FieldAddr); ok && fa.Field == fi && isPtrTo(fa.X.Type(), d.T) {
+							if bad == nil || w.InstrPos(in) < w.InstrPos(bad) {
+								bad = in
+							}
+						}
+					}
+				}
+			}
+		}
+		pos, detail := w.Pos(d.Ctor.Pos()), "stored by the constructor only"
+		if bad != nil {
+			pos, detail = w.InstrPos(bad), "assigned again in "+bad.Parent().Name()
+		}
+		r.Check(bad == nil, rule, "detector parameter "+role+" ("+d.St.Field(fi).Name()+") keeps its configured value for the life of the detector", pos, detail)
+	}
+}
